@@ -296,7 +296,29 @@ def install_first_loop(w):
                                                      patterns=[SUB(s0, n, m)]),
               "no-new-nodes": no_new_nodes(s0, s), "top": s.top >= s0.top}
         cl.update({"shape:" + a: b for a, b in shape_inv(s).items()})
+        cl.update(reported(s0, s, v, k))
         return cl
+
+    def reported(s0, s, v, k):
+        """the list prune returns so far: one (node, reason) pair per removed child — as many as were removed, each about an old child that the
+        rule does not permit; and the registry has only lost entries, among them every node of a removed child's subtree"""
+        n = v.n
+        L = s0.kids(n)
+        x = v.raw("pruned")
+        R = x.ref if isinstance(x, PList) else x.t
+        i, m = z3.Ints("rp_i rp_m")
+        key = z3.Const("rp_key", Val)
+        e = s.at(R, i)
+        who = Val.r(smt.TITEM(Val.tid(e), 0))
+        removed = lambda mm: z3.And(SUB(s0, n, mm), mm != n, W(s0, n, mm) < k, z3.Not(allowed(s0, s0.name(n), s0.f("_name", s0.kid(n, W(s0, n, mm))))))
+        return {"reported-list": z3.And(R >= s0.top, R < s.top, kind(R) == KIND_LIST, R != L),
+                "reported-count": s.len(R) + s.len(L) == s0.nkids(n) - 0 + (k - k),
+                "reported-entries": smt.FA([i], z3.Implies(z3.And(0 <= i, i < s.len(R)), z3.And(
+                    Val.is_tupv(e), smt.TLEN(Val.tid(e)) == 2, Val.is_ref(smt.TITEM(Val.tid(e), 0)), Val.is_strv(smt.TITEM(Val.tid(e), 1)),
+                    SUB(s0, n, who), who != n, W(s0, n, who) < k, s0.at(L, W(s0, n, who)) == Val.ref(who),
+                    z3.Not(allowed(s0, s0.name(n), s0.f("_name", who))))), patterns=[s.at(R, i)]),
+                "registry-only-loses-entries": smt.FA([key], z3.Or(store_map(s)[key] == store_map(s0)[key], store_map(s)[key] == smt.absent), patterns=[store_map(s)[key]]),
+                "removed-subtrees-unregistered": smt.FA([m], z3.Implies(removed(m), store_map(s)[s0.f("_id", m)] == smt.absent), patterns=[SUB(s0, n, m)])}
 
     def loop_axioms(s0, s, v):
         n, k = v.n, v._k
@@ -327,7 +349,8 @@ def install_first_loop(w):
         i = z3.Int("fs_i")
         return {"top:every-child-left-is-permitted": smt.FA([i], z3.Implies(z3.And(0 <= i, i < s.len(L)), allowed(s0, s0.name(n), s0.f("_name", s.nat(L, i)))), patterns=[s.at(L, i)]),
                 "top:children-left-are-old-children": smt.FA([i], z3.Implies(z3.And(0 <= i, i < s.len(L)), z3.And(SUB(s0, n, s.nat(L, i)), s.nat(L, i) != n)), patterns=[s.at(L, i)]),
-                "top:other-lists-untouched": others_lists_unchanged(s0, s, n), **{"top:" + a: b for a, b in shape_inv(s).items()}}
+                "top:other-lists-untouched": others_lists_unchanged(s0, s, n), **{"top:" + a: b for a, b in shape_inv(s).items()},
+                **{"top:" + a: b for a, b in reported(s0, s, v, s0.nkids(n)).items()}}
 
     con = Contract(Q, params={"n": "Node", "strict": "bool"}, requires=requires, axioms=axioms, ensures=lambda s0, s, result=None, **kw: {},
                    writes=("llen", "lelem", "F:_parent") + DICT_ARRS,
